@@ -6,6 +6,7 @@ import KiraModel.Exec.SuiteUnits
 import KiraModel.Exec.SuiteParam
 import KiraModel.Exec.SuiteChan
 import KiraModel.Exec.SuiteStorage
+import KiraModel.Exec.SuiteLife
 
 open K.Exec
 
@@ -24,6 +25,7 @@ def suiteOf (name : String) : Option Suite :=
   | "param" => some { σ := ParamState, init := {}, step := paramStep }
   | "chan" => some { σ := ChanState, init := {}, step := withSeq chanStep }
   | "storage" => some { σ := StoState, init := {}, step := withSeq storageStep }
+  | "life" => some { σ := LifeState, init := {}, step := withSeq lifeStep }
   | _ => none
 
 def tokens (line : String) : List String :=
